@@ -231,6 +231,23 @@ def check(ax, case, rec):
     got = dense(fem.IntegralForm(funs, fc, dV, fc).assemble(parallel=par))
     cmp("mixed-bilinear-mode" + ("2" if f == "B2" else "3"), got, K)
     rec.label("mode=" + f)
+    if any(fn is None for fn in funs) and c not in ("M3AX",):
+        # the cell-value buffers of an earlier integration in which every block was present are handed back as out= (the way a
+        # solid body re-uses its stiffness values): absent blocks stay zero
+        shapes = []
+        for (i, j) in pairs:
+            tv = tshape(fields[i], grads[i], d3 or c == "M3AX", mdim)
+            tu = tshape(fields[j], grads[j], d3 or c == "M3AX", mdim)
+            shapes.append(tv + tu)
+        funs_full = [fn if fn is not None else integrand(rng, shp, nq, nc, "full") for fn, shp in zip(funs, shapes)]
+        try:
+            buffers = fem.IntegralForm(funs_full, fc, dV, fc).integrate(parallel=par)
+            form2 = fem.IntegralForm(funs, fc, dV, fc)
+            buffers = form2.integrate(parallel=par, out=buffers)
+            got2 = dense(form2.assemble(values=buffers))
+            cmp("absent-blocks-stay-zero-when-buffers-are-re-used", got2, K)
+        except (ValueError, TypeError, IndexError) as e_:
+            rec.label("buffer-re-use-not-applicable:" + type(e_).__name__)
 
 
 # ---------------------------------------------------------------------------------------------------------------
